@@ -588,12 +588,88 @@ pub fn check_diff(case: &DiffCase, obs: &mut Obs) -> Result<(), Fail> {
     Ok(())
 }
 
+/// split-read metamorphic relation on arbitrary bytes (libFuzzer target; also replayable):
+/// feeding `bytes[..at]` first and the rest afterwards must give the same outcome as feeding
+/// everything at once
+#[derive(Debug, Clone, Serialize, Deserialize)]
+pub struct SplitCase {
+    pub bytes: Vec<u8>,
+    pub at: usize,
+}
+
+pub fn check_split(case: &SplitCase, obs: &mut Obs) -> Result<(), Fail> {
+    let b = &case.bytes;
+    if has_huge_count(b) {
+        obs.excluded += 1;
+        return Ok(());
+    }
+    let at = case.at.min(b.len());
+    let shown = String::from_utf8_lossy(&b[..b.len().min(120)]).to_string();
+    let mut whole = BytesMut::from(&b[..]);
+    let full = <RespVec as DecodedPacket>::decode(&mut whole, ()).map(|o| o.map(|v| (RVal::from_resp(&v), b.len() - whole.len())));
+    let mut buf = BytesMut::from(&b[..at]);
+    let pre = <RespVec as DecodedPacket>::decode(&mut buf, ()).map(|o| o.map(|v| (RVal::from_resp(&v), at - buf.len())));
+    match pre {
+        Ok(Some(first)) => {
+            obs.class("split:prefix-holds-a-packet");
+            ensure!(
+                matches!(&full, Ok(Some(f)) if *f == first),
+                "C15:split-read-differs",
+                "input {:?}: the first {} bytes decode to {:?}, the whole input decodes to {:?}",
+                shown,
+                at,
+                first,
+                full.as_ref().map_err(|e| e.to_string())
+            );
+        }
+        Ok(None) => {
+            ensure!(buf.as_ref() == &b[..at], "C15:consumed-bytes-of-incomplete-packet", "input {:?}: need-more after {} bytes but the buffer changed", shown, at);
+            buf.extend_from_slice(&b[at..]);
+            let second = <RespVec as DecodedPacket>::decode(&mut buf, ()).map(|o| o.map(|v| (RVal::from_resp(&v), b.len() - buf.len())));
+            let same = match (&second, &full) {
+                (Ok(a), Ok(c)) => a == c,
+                (Err(_), Err(_)) => true,
+                _ => false,
+            };
+            ensure!(
+                same,
+                "C15:split-read-differs",
+                "input {:?} split after {} bytes decodes to {:?}; in one piece to {:?}",
+                shown,
+                at,
+                second.as_ref().map_err(|e| e.to_string()),
+                full.as_ref().map_err(|e| e.to_string())
+            );
+            if matches!(full, Ok(Some(_))) && at > 0 {
+                obs.class("split:inside-a-complete-packet");
+                obs.nontrivial = true;
+            }
+        }
+        Err(_) => {
+            obs.class("split:prefix-invalid");
+            ensure!(full.is_err(), "C15:split-read-differs", "input {:?}: the first {} bytes are rejected, the whole input is accepted as {:?}", shown, at, full.as_ref().map_err(|e| e.to_string()));
+        }
+    }
+    Ok(())
+}
+
+pub fn split_strategy() -> impl Strategy<Value = SplitCase> {
+    (diff_strategy(), any::<u16>()).prop_map(|(d, k)| {
+        let at = pick(k, d.bytes.len() + 1);
+        SplitCase { bytes: d.bytes, at }
+    })
+}
+
+pub const RULE_SPLIT: &str = "the byte strings of the differential generator, cut at a generated position: decoding the first part and then the rest must give the same value, consumed length or error as decoding everything at once; a 'need more' answer leaves the buffer untouched; non-trivial = the cut lies inside a packet that is complete in the whole input; distinct = hash of the case";
+pub const RULE_FUZZ: &str = "libFuzzer (coverage-guided, ASan, fixed -seed and -runs per worker process, fresh corpus seeded with golden RESP packets and a RESP dictionary) over raw byte strings up to 512 bytes; in-target oracles: the strict-RESP2 differential and the split-read relation (same functions as the proptest sub-checks); every crash artifact is re-decided by the oracle in the parent before it is reported";
+
 pub const RULE_RT: &str = "recursive RESP value generator (depth<=5, arrays<=12, bulk 0..70000 bytes incl. CR/LF/NUL/$/*, nil bulk/array, empty array/string; line payloads without CR/LF) -> pipelines of 1..5 values encoded by the real encoder (compared with a reference encoder written from the spec) -> decoded by RespVec / RespPacket / Box<RespPacket> codecs and the OptionalMulti decoder with Single and Multi hints, in one piece, under a generated k-way split and (streams <= 512 B) under EVERY single split point; oracle: same values, exact consumed byte counts, buffer == unconsumed input whenever 'need more', pass-through re-encoding byte-identical, trailing bytes untouched; non-trivial = nesting >= 2 or CR/LF in a payload or a split inside a CRLF; distinct = hash of the case";
 pub const RULE_DIFF: &str = "differential against a strict RESP2 reference recognizer (Complete/Incomplete/Invalid/Unspecified) over targeted mutations of valid encodings (CRLF->LF, CR+X, dropped terminator, length +-1/+-2, hostile-but-bounded prefixes, type byte, truncation, insertion, bit flips) and raw bytes over a RESP-biased alphabet; real Ok must equal the reference value and length, reference-invalid must not decode to a value, reference-incomplete must be 'need more'; non-trivial = reference-invalid input, or a complete packet longer than 6 bytes; distinct = hash of the bytes";
 
 pub fn run(ctx: &Ctx, findings: &Findings) -> PropReport {
     CASE_THREADS.store(false, std::sync::atomic::Ordering::Relaxed);
     let mut subs = vec![];
+    let mut fuzz_note: Option<String> = None;
     if let Some(path) = &ctx.replay {
         let v: serde_json::Value = serde_json::from_str(&std::fs::read_to_string(path).expect("replay file")).expect("json");
         if let Some(r) = replay_case::<RtCase>(ctx, findings, "roundtrip", &v, &check_roundtrip) {
@@ -602,9 +678,38 @@ pub fn run(ctx: &Ctx, findings: &Findings) -> PropReport {
         if let Some(r) = replay_case::<DiffCase>(ctx, findings, "differential", &v, &check_diff) {
             subs.push(r);
         }
+        if let Some(r) = replay_case::<SplitCase>(ctx, findings, "split", &v, &check_split) {
+            subs.push(r);
+        }
     } else {
         subs.push(drive(ctx, findings, "roundtrip", RULE_RT, ctx.cases(60000, 1200000), rt_strategy, &check_roundtrip));
         subs.push(drive(ctx, findings, "differential", RULE_DIFF, ctx.cases(3000000, 60000000), diff_strategy, &check_diff));
+        subs.push(drive(ctx, findings, "split", RULE_SPLIT, ctx.cases(1000000, 20000000), split_strategy, &check_split));
+        if ctx.tier == Tier::Thorough {
+            let spec = crate::fuzzing::FuzzSpec {
+                target: "c15_decode",
+                sub: "differential",
+                rule: RULE_FUZZ,
+                runs: ((3_000_000.0 * ctx.scale) as u64).max(1000),
+                max_len: 512,
+                timeout_s: 30,
+                malloc_limit_mb: 1024,
+                confirm: &|bytes: &[u8], obs: &mut Obs| {
+                    if bytes.is_empty() {
+                        return Ok(());
+                    }
+                    let body = bytes[1..].to_vec();
+                    check_diff(&DiffCase { bytes: body.clone() }, obs)?;
+                    let at = (bytes[0] as usize * (body.len() + 1)) >> 8;
+                    check_split(&SplitCase { bytes: body, at }, obs)
+                },
+                case_of: &|bytes: &[u8]| serde_json::to_value(DiffCase { bytes: bytes.get(1..).unwrap_or(&[]).to_vec() }).unwrap(),
+            };
+            match crate::fuzzing::run_fuzz(ctx, findings, &spec) {
+                Some(r) => subs.push(r),
+                None => fuzz_note = Some(crate::fuzzing::fuzz_missing_note("c15_decode")),
+            }
+        }
     }
     PropReport {
         level: "exploration",
@@ -612,7 +717,10 @@ pub fn run(ctx: &Ctx, findings: &Findings) -> PropReport {
         assumptions: vec![
             "content the code treats as opaque (digits of ':' integers, negative lengths other than -1, '+N' lengths, a CR inside a line) is 'unspecified' for the reference and never alarms".into(),
             "array counts above 2^20 are excluded here (the parser pre-allocates by declared count; that is C16's subject and is run there in an isolated child process)".into(),
-        ],
+        ]
+        .into_iter()
+        .chain(fuzz_note)
+        .collect(),
         extra: Default::default(),
     }
 }
